@@ -23,9 +23,20 @@ Judge(e) ==
   IN [ok |-> r.ok /\ ~r.genbug /\ e.race = "",
       info |-> [id |-> e.id, kind |-> e.kind, genbug |-> r.genbug, failedStep |-> r.i, expected |-> r.exp, race |-> e.race]]
 
+\* C14 on the process-backed driver's own copy of the filter: the same sends under option set o and under all
+\* options on; only the relation between the two real runs is judged: deliveries(o) = Project(o, deliveries(all on))
+JudgeTwin(e) ==
+  LET ok == /\ Len(e.own) = Len(e.all)
+            /\ \A i \in 1..Len(e.own) :
+                 LET proj == SelectSeq(e.all[i], LAMBDA d : PassesOpts(e.opts, d.m))
+                 IN [j \in 1..Len(e.own[i]) |-> e.own[i][j].m] = [j \in 1..Len(proj) |-> proj[j].m]
+  IN [ok |-> ok /\ e.pan = "", info |-> [id |-> e.id, kind |-> "twin", opts |-> e.opts, pan |-> e.pan]]
+
+JudgeAny(e) == IF e.kind = "twin" THEN JudgeTwin(e) ELSE Judge(e)
+
 Init == l = 1 /\ bad = <<>>
 Next == \/ /\ l <= Len(Trace)
-           /\ LET j == Judge(Trace[l])
+           /\ LET j == JudgeAny(Trace[l])
               IN bad' = IF j.ok THEN bad ELSE Append(bad, [line |-> l, info |-> j.info])
            /\ l' = l + 1
         \/ /\ l = Len(Trace) + 1
